@@ -5,7 +5,7 @@
    user notifier, and never otherwise.  (For histories that also mutate the object graph the hypothesis
    is property C08.) *)
 From Coq Require Import ZArith List Bool Arith PeanoNat Lia.
-From TV Require Import C09.Model C09.Law C09.Proofs C09.Dyn C09.DynCount C09.DynSlot C09.DynAdd C12.Model C12.Proofs.
+From TV Require Import C09.Model C09.Law C09.Proofs C09.Dyn C09.DynProofs C09.DynCount C09.DynSlot C09.DynAdd C12.Model C12.Law C12.Proofs.
 Import ListNotations.
 
 Section Compose.
@@ -170,3 +170,105 @@ Section ComposeDyn.
     apply (faithful_of_calls h R k (x, F_TA) calls Le Iff).
   Qed.
 End ComposeDyn.
+
+(* HISTORIES: the per-step theorems above chained along any admissible C09 history (registrations and removals of any
+   handlers, scalar changes, link reassignments, container mutations, add_trait), interleaved with reads of the property
+   and listeners coming and going.  The interface hypothesis [faithful_hist] of C12 is then a THEOREM, and so is the
+   law of C12, under one condition on the worlds: a step that fires no slot matched by the property's registrations
+   leaves the observed view unchanged. *)
+Section ComposeHist.
+  Variable W : Type.
+  Variable f : W -> Z.
+  Variable cached : bool.
+  Variable view : W -> list Z.
+  Variable k : key.                 (* the property's handler *)
+
+  Lemma read_world (s : C12.Model.state W) : world (fst (fst (read W f cached s))) = world s.
+  Proof. unfold read. destruct cached; [destruct (cache s)|]; reflexivity. Qed.
+  Lemma deliver_world (s : C12.Model.state W) : world (fst (fst (deliver W f cached s))) = world s.
+  Proof.
+    unfold deliver. destruct (listeners s); [reflexivity|].
+    pose proof (read_world (mkState (world s) None (S n))) as R.
+    destruct (read W f cached (mkState (world s) None (S n))) as [[s2 v] m]. exact R.
+  Qed.
+  Lemma deliver_n_world d : forall s : C12.Model.state W, world (fst (fst (deliver_n W f cached d s))) = world s.
+  Proof.
+    induction d as [|d IH]; intros s; [reflexivity|]. cbn [deliver_n].
+    pose proof (deliver_world s) as D. destruct (deliver W f cached s) as [[s1 n1] e1]. cbn [fst] in D.
+    specialize (IH s1). destruct (deliver_n W f cached d s1) as [[s2 n2] e2]. cbn [fst] in *. congruence.
+  Qed.
+  Lemma mut_world (s : C12.Model.state W) w' t d : world (fst (C12.Model.step W f cached s (Mut w' t d))) = w'.
+  Proof.
+    cbn [C12.Model.step]. pose proof (deliver_n_world d (mkState w' (cache s) (listeners s))) as D.
+    destruct (deliver_n W f cached d (mkState w' (cache s) (listeners s))) as [[s' n] ev]. exact D.
+  Qed.
+
+  (* a C09 history in which every step comes with the world it leaves behind, seen from the property: every step that
+     fires a slot is a [Mut] whose [touched] flag is "a live registration of the property's handler matches the slot
+     on the heap as it is now" and whose delivery count is how often the C09 model calls the handler; reads of the
+     property and listeners coming and going are interleaved *)
+  Inductive jop := JStep (c : cop3) (w' : W) | JRead | JListen | JUnlisten.
+  Definition cops (ops : list jop) : list cop3 :=
+    flat_map (fun j => match j with JStep c _ => [c] | _ => [] end) ops.
+  Fixpoint joint (d : dstate) (R : list reg) (ops : list jop) : list (op W) :=
+    match ops with
+    | [] => []
+    | JStep c w' :: r =>
+        let '(d1, ob) := dstep d (dop_of3 c) in
+        let rest := joint d1 (live_after3 R c ob) r in
+        match slot_of3 c with
+        | Some sg => Mut w' (touched_by (d_heap d) R k sg) (ncalls k (o_calls ob)) :: rest
+        | None => rest
+        end
+    | JRead :: r => Read :: joint d R r
+    | JListen :: r => Listen :: joint d R r
+    | JUnlisten :: r => Unlisten :: joint d R r
+    end.
+  (* the only thing asked of the worlds: a step that fires no matched slot leaves the observed view unchanged *)
+  Fixpoint coherent (d : dstate) (R : list reg) (w : W) (ops : list jop) : Prop :=
+    match ops with
+    | [] => True
+    | JStep c w' :: r =>
+        let '(d1, ob) := dstep d (dop_of3 c) in
+        match slot_of3 c with
+        | Some sg => (touched_by (d_heap d) R k sg = false -> view w = view w') /\ coherent d1 (live_after3 R c ob) w' r
+        | None => coherent d1 (live_after3 R c ob) w r
+        end
+    | _ :: r => coherent d R w r
+    end.
+
+  Theorem dynamic_histories_are_faithful : forall ops d R (cs : C12.Model.state W),
+    dstate_inv d R -> wfH (st_hooks (d_st d)) -> admissible_run3 d R (cops ops) ->
+    coherent d R (world cs) ops ->
+    faithful_hist W f cached view cs (joint d R ops).
+  Proof.
+    induction ops as [|[c w'| | |] ops IH]; intros d R cs I Wf Ad Co; [exact Logic.I| | | |].
+    - cbn [cops flat_map app admissible_run3] in Ad. fold (cops ops) in Ad. destruct Ad as [Ad1 Ad2]. cbn [joint coherent] in *.
+      destruct (dstep d (dop_of3 c)) as [d1 ob] eqn:S. cbn [fst snd] in Ad2.
+      destruct (cstep3 d R c d1 ob I Ad1 S) as [I1 _]. pose proof (dstep_wf _ _ _ _ Wf S) as Wf1.
+      pose proof (cstep3_calls d R c d1 ob k I Wf Ad1 S) as Cl.
+      destruct (slot_of3 c) as [sg|].
+      + destruct Co as [Vl Co]. destruct Cl as [Le Iff]. cbn [faithful_hist]. split.
+        * apply (faithful_of_calls W view (d_heap d) R k sg (o_calls ob) Le Iff cs w' Vl).
+        * apply (IH d1 _ _ I1 Wf1 Ad2). rewrite mut_world. exact Co.
+      + apply (IH d1 _ cs I1 Wf1 Ad2 Co).
+    - cbn [joint faithful_hist faithful]. split; [exact Logic.I|]. apply (IH d R _ I Wf Ad).
+      cbn [C12.Model.step]. pose proof (read_world cs) as Rw. destruct (read W f cached cs) as [[s' v] n]. cbn [fst] in *.
+      rewrite Rw. exact Co.
+    - cbn [joint faithful_hist faithful]. split; [exact Logic.I|]. apply (IH d R _ I Wf Ad). exact Co.
+    - cbn [joint faithful_hist faithful]. split; [exact Logic.I|]. apply (IH d R _ I Wf Ad). exact Co.
+  Qed.
+
+  (* ... and therefore the whole law of C12 holds on them, with NO interface hypothesis left *)
+  Corollary law_holds_on_dynamic_histories :
+    (forall w w', view w = view w' -> f w = f w') ->
+    forall ops d R (cs : C12.Model.state W) i runs,
+      dstate_inv d R -> wfH (st_hooks (d_st d)) -> admissible_run3 d R (cops ops) ->
+      coherent d R (world cs) ops ->
+      inv W f cs -> (cached = true -> (runs + slack W cs <= 1)%nat) ->
+      C12.Law.law_hist cached i (f (world cs)) runs (listeners cs) (observe W f cached view cs (joint d R ops)) = [].
+  Proof.
+    intros Ro ops d R cs i runs I Wf Ad Co Iv Sl.
+    apply (law_model W f cached view Ro (joint d R ops) cs i runs Iv (dynamic_histories_are_faithful ops d R cs I Wf Ad Co) Sl).
+  Qed.
+End ComposeHist.
